@@ -187,11 +187,17 @@ var fillers = []filler{
 const nameA, nameB = "log", "class"
 
 type layout struct {
-	nfields  int // named fields
-	reserved int // extra unnamed slots at the end of LogRecord.Fields (schema maxFields - nfields), filled with junk
+	nfields  int  // named fields
+	reserved int  // extra unnamed slots at the end of LogRecord.Fields (schema maxFields - nfields), filled with junk
+	dense    bool // every filler is a non-empty plain field, except "host" (one environment field is mandatory): largest record map
 }
 
-func (l layout) String() string { return fmt.Sprintf("s%d+%d", l.nfields, l.reserved) }
+func (l layout) String() string {
+	if l.dense {
+		return fmt.Sprintf("s%d+%ddense", l.nfields, l.reserved)
+	}
+	return fmt.Sprintf("s%d+%d", l.nfields, l.reserved)
+}
 
 type setup struct {
 	lay      layout
@@ -231,7 +237,11 @@ func newSetup(lay layout, roleA, roleB role) *setup {
 	st.roles = []role{roleA, roleB}
 	for i := 0; len(st.names) < lay.nfields && i < len(fillers); i++ {
 		st.names = append(st.names, fillers[i].name)
-		st.roles = append(st.roles, fillers[i].role)
+		if lay.dense && i > 0 {
+			st.roles = append(st.roles, rPlain)
+		} else {
+			st.roles = append(st.roles, fillers[i].role)
+		}
 	}
 	for i := 0; len(st.names) < lay.nfields; i++ { // layouts larger than 16: extra environment fields
 		st.names = append(st.names, fmt.Sprintf("env%02d", i))
@@ -270,6 +280,9 @@ func newSetup(lay layout, roleA, roleB role) *setup {
 	st.fill = make([]string, lay.nfields+lay.reserved)
 	for i := 2; i < lay.nfields; i++ {
 		st.fill[i] = st.fillerValue(i)
+		if lay.dense && st.fill[i] == "" {
+			st.fill[i] = fmt.Sprintf("v%d", i)
+		}
 	}
 	for i := lay.nfields; i < len(st.fill); i++ {
 		st.fill[i] = fmt.Sprintf("RESERVED-SLOT-%d-must-not-be-emitted", i)
@@ -828,8 +841,14 @@ func enumerate(ctx *seq.Ctx) {
 	classes := contentClasses(thorough)
 	values := buildValues(classes)
 	tss := stamps(thorough)
-	// the first two layouts are "primary"; the others get the full value product only in the thorough tier
-	layouts := []layout{{3, 0}, {16, 0}, {14, 0}, {15, 0}, {3, 2}, {16, 2}}
+	// layouts in three classes (the cheap ones first so that a deadline cannot starve them):
+	//   class 0: 3+2, 16+2 (reserved slots), 14/15/16 dense   class 1: 14, 15   class 2: 3, 16
+	type classedLayout struct {
+		layout
+		class int
+	}
+	layouts := []classedLayout{{layout{3, 2, false}, 0}, {layout{16, 2, false}, 0}, {layout{14, 0, true}, 0}, {layout{15, 0, true}, 0}, {layout{16, 0, true}, 0},
+		{layout{14, 0, false}, 1}, {layout{15, 0, false}, 1}, {layout{3, 0, false}, 2}, {layout{16, 0, false}, 2}}
 	// value sets: "listed" = the 11 lengths x 14 content classes named in the plan; "all" adds the thorough-only classes;
 	// "small" = lengths {0,1,16,65536} x {ascii, mixed}
 	listedClass := func(ci int) bool {
@@ -852,62 +871,28 @@ func enumerate(ctx *seq.Ctx) {
 	valueStamps := map[string]bool{"ns999999999": true, "2038-first": true}
 	ctx.Note("domain", fmt.Sprintf("%d layouts x %d x %d roles x 2 flags; %d timestamps; %d lengths x %d content classes", len(layouts), numRoles, numRoles, len(tss), len(lengthClasses), len(classes)))
 
-	// pairOK decides which (A value, B value) pairs are crossed with timestamp ti:
-	//   quick:    value timestamps: listed x listed;                      other timestamps: small x small
-	//             (layouts other than 3+0 and 16+0: small x small at every timestamp)
-	//   thorough: value timestamps: all x listed  U  listed x all;        other timestamps: listed x listed
-	// (thorough therefore contains the full product of the plan: 6 timestamps x listed x listed, and more)
-	pairOK := func(li int, ts stamp, ai, bi int) bool {
-		if !thorough && li >= 2 {
-			return isSmall[ai] && isSmall[bi]
+	// pairOK decides which (A value, B value) pairs are crossed with a timestamp on a layout. With V = the two value
+	// timestamps, O = the other timestamps:
+	//   level 0: small x small at every timestamp
+	//   level 1: V: listed x listed;                 O: small x small
+	//   level 2: V: all x listed U listed x all;     O: listed x listed   (contains the full planned product)
+	// quick: layout classes 0,1 -> level 0, class 2 -> level 1.  thorough: class 0 -> level 1, classes 1,2 -> level 2.
+	pairOK := func(class int, ts stamp, ai, bi int) bool {
+		level := 0
+		switch {
+		case thorough && class >= 1:
+			level = 2
+		case thorough || class == 2:
+			level = 1
 		}
-		if valueStamps[ts.name] {
-			if thorough {
-				return isListed[ai] || isListed[bi]
-			}
-			return isListed[ai] && isListed[bi]
-		}
-		if thorough {
+		v := valueStamps[ts.name]
+		switch {
+		case level == 2 && v:
+			return isListed[ai] || isListed[bi]
+		case level == 2, level == 1 && v:
 			return isListed[ai] && isListed[bi]
 		}
 		return isSmall[ai] && isSmall[bi]
-	}
-
-	// ---- main product
-	for li, lay := range layouts {
-		for ra := role(0); ra < numRoles; ra++ {
-			for rb := role(0); rb < numRoles; rb++ {
-				if ctx.Stop() {
-					return
-				}
-				st := newSetup(lay, ra, rb)
-				ctx.Group(fmt.Sprintf("%s/A=%s", lay, roleNames[ra]))
-				for ui := 0; ui < 2; ui++ {
-					for ti, ts := range tss {
-						for ai := range values {
-							if ctx.Stop() {
-								return
-							}
-							for bi := range values {
-								if !pairOK(li, ts, ai, bi) {
-									continue
-								}
-								if !ctx.Mine() {
-									ctx.Skip()
-									continue
-								}
-								a, b := &values[ai], &values[bi]
-								id := fmt.Sprintf("%s/A=%s:%d:%s/B=%s:%d:%s/u%d/t%d", lay, roleNames[ra], lengthClasses[a.li], classes[a.ci].name,
-									roleNames[rb], lengthClasses[b.li], classes[b.ci].name, ui, ti)
-								nontrivial := (a.s != "" && ra != rHidden) || (b.s != "" && rb != rHidden)
-								unescaped, ts := ui == 1, ts
-								ctx.Case(id, nontrivial, id, func() (string, string) { return st.check(ctx, a, b, unescaped, ts) })
-							}
-						}
-					}
-				}
-			}
-		}
 	}
 
 	// ---- environment maps on both sides of the fixmap boundary (15 / 16 / 17 environment fields): layouts of 17-21 named
@@ -924,7 +909,7 @@ func enumerate(ctx *seq.Ctx) {
 				if ctx.Stop() {
 					return
 				}
-				st := newSetup(layout{nf, 0}, ra, rb)
+				st := newSetup(layout{nf, 0, false}, ra, rb)
 				nenv := 0
 				for _, r := range st.roles {
 					if r == rEnv {
@@ -946,6 +931,44 @@ func enumerate(ctx *seq.Ctx) {
 			}
 		}
 	}
+
+	// ---- main product
+	for _, cl := range layouts {
+		lay := cl.layout
+		for ra := role(0); ra < numRoles; ra++ {
+			for rb := role(0); rb < numRoles; rb++ {
+				if ctx.Stop() {
+					return
+				}
+				st := newSetup(lay, ra, rb)
+				ctx.Group(fmt.Sprintf("%s/A=%s", lay, roleNames[ra]))
+				for ui := 0; ui < 2; ui++ {
+					for ti, ts := range tss {
+						for ai := range values {
+							if ctx.Stop() {
+								return
+							}
+							for bi := range values {
+								if !pairOK(cl.class, ts, ai, bi) {
+									continue
+								}
+								if !ctx.Mine() {
+									ctx.Skip()
+									continue
+								}
+								a, b := &values[ai], &values[bi]
+								id := fmt.Sprintf("%s/A=%s:%d:%s/B=%s:%d:%s/u%d/t%d", lay, roleNames[ra], lengthClasses[a.li], classes[a.ci].name,
+									roleNames[rb], lengthClasses[b.li], classes[b.ci].name, ui, ti)
+								nontrivial := (a.s != "" && ra != rHidden) || (b.s != "" && rb != rHidden)
+								unescaped, ts := ui == 1, ts
+								ctx.Case(id, nontrivial, id, func() (string, string) { return st.check(ctx, a, b, unescaped, ts) })
+							}
+						}
+					}
+				}
+			}
+		}
+	}
 }
 
 func main() {
@@ -957,13 +980,13 @@ func main() {
 		Property: "C10",
 		Level:    "exploration",
 		Rule: "bounded-exhaustive product through fluentdforward Config.VerifyConfig+NewSerializer+SerializeRecord with the real copy/unescape/inline rewriters: " +
-			"layouts {3,16 named fields; 14, 15, 3+2 reserved, 16+2 reserved unnamed slots} x role of field A x role of field B, each from {plain, environment, hidden, " +
+			"layouts {3,16 named fields; 14, 15, 3+2 reserved, 16+2 reserved unnamed slots, 14/15/16 dense = all fillers visible} x role of field A x role of field B, each from {plain, environment, hidden, " +
 			"rewritten[copy], rewritten[unescape], rewritten[inline other,copy], rewritten[inline other,unescape]} x record.Unescaped {false,true} x timestamps " +
 			"{epoch, ns 0/1/999999999, 2^31-1.999999999, 2^31} (thorough adds a non-UTC location and 2^32-1) x value of A x value of B, each value from lengths " +
 			"{0,1,15,16,31,32,255,256,65535,65536,65537} x content classes {ASCII, 0x00, 0xFF, multi-byte, dense \\b \\f \\n \\r \\t \\\\ \\x, trailing backslash, only backslashes, mixed} " +
 			"(thorough adds 8 more non-escape second bytes and a single escape at start/middle/end). Quick crosses listed x listed values with timestamps {ns 999999999, 2^31} on layouts 3 and 16 and " +
-			"small x small values (lengths 0,1,16,65536 x ASCII, mixed) with every other timestamp and layout; thorough crosses (all x listed U listed x all) values with those two timestamps and listed x listed with every other timestamp, on all six layouts " +
-			"(a superset of the full planned product). 16-field layouts carry 14 fixed filler fields (empty and non-empty environment/hidden/plain, " +
+			"small x small values (lengths 0,1,16,65536 x ASCII, mixed) with every other timestamp and layout; thorough crosses (all x listed U listed x all) values with those two timestamps and listed x listed with every other timestamp on layouts 3, 16, 14, 15 " +
+			"(a superset of the full planned product) and gives the remaining layouts what quick gives layouts 3 and 16. 16-field layouts carry 14 fixed filler fields (empty and non-empty environment/hidden/plain, " +
 			"keys of 15/16/31/32/255/256 bytes, values of 15/16/31/32/255/256 bytes, raw escapes in a plain field); plus 14-19 environment fields for the nested map header. " +
 			"Each case: serializer buffer poisoned with 0xC1, fresh record; output decoded token by token with vmihailenco/msgpack and again as fluentlib forwardprotocol.EventEntry; " +
 			"non-trivial = at least one of A, B is non-empty and not hidden",
